@@ -11,7 +11,9 @@ BASE = dict(MaxLen=3, MaxT=4, Lo=1, Small=set(), MaxLenS=2, MaxTS=3, Ds={0, 1, 2
 # quick: two TLC runs side by side; operators in Small use the smaller timeline bounds; for the operators in DispOps the
 # subscriber also disposes between two instants (timelines of at most DispLen elements)
 QUICK = [(["delay", "delay_abs", "timestamp", "time_interval", "delay_subscription", "delay_subscription_abs"],
-          dict(MaxT=3, Small={"delay_subscription", "delay_subscription_abs"}, Hz=6, DispOps={"delay"})),
+          dict(MaxT=3, Small={"delay_subscription", "delay_subscription_abs"}, Hz=6, DispOps={"delay"},
+               # feedback: the sink, inside the delivery of its k-th element, fails / completes the source it consumes
+               EchoOps={"delay", "delay_abs"}, EchoKs={1, 2})),
          (["delay_with_mapper", "delay_with_mapper_sub"],
           dict(MaxLen=2, MaxT=3, Small={"delay_with_mapper_sub"}, MaxLenS=1, MaxTS=2, SpecTs={0, 2}, Terms={"C", "E"}, Hz=6))]
 
